@@ -5,6 +5,7 @@ import Holpy.C03.OrdProofs
 import Holpy.C03.HashProofs
 import Holpy.C03.HeapProofs
 import Holpy.C03.SubstProofs
+import Holpy.C03.MemoProofs
 /-
 C03 — term equality is alpha-equivalence; substitution is capture-free.
 
@@ -145,6 +146,72 @@ theorem id_shortcut_counterexample :
     readTerm_repr 2 1 _ (by decide), readTerm_repr 2 0 _ (by decide), by decide⟩
 
 example : (staleHeap 1).map (·.id) = some 0 := by decide
+
+
+/-! ### the memoised hash `_hash_val` -/
+
+/-- For every history of constructor calls, `Term(t)` (which copies `_hash_val`), `copy`, frees of
+unreferenced objects, `hash` calls (which store `_hash_val` unless present) and `subst_type_inplace`
+calls (which rewrite the objects reachable from the target once each and delete `_hash_val` on
+every one of them) — the last under the hypothesis `NoAlias`: no memoised object outside the
+rewritten ones shares an object with them — a stored `_hash_val` is always the hash of the tuple
+nest of the term the object represents NOW; so `hash(obj)` is the hash of that nest whether memoised
+or not, and objects representing `==` terms have equal hashes.  Also: the objects of the target of
+`subst_type_inplace` represent the instantiated terms afterwards. -/
+theorem hash_memo_sound (h : Heap) (m : Memo) (hst : MSteps (Heap.empty, Memo.empty) (h, m)) :
+    MemoInv h m ∧
+    (∀ a t fuel, Repr h a t → size t ≤ fuel → hashObs h m fuel a = some (hashTree t)) ∧
+    (∀ a b ta tb fuel, Repr h a ta → Repr h b tb → size ta ≤ fuel → size tb ≤ fuel →
+      Term.aeq ta tb = true → hashObs h m fuel a = hashObs h m fuel b) ∧
+    (∀ σ R b t, ChildClosed h R → Repr h b t → b ∈ R →
+      Repr (inplaceHeap σ R h) b (Term.substType σ t)) := by
+  have hi : MemoInv h m := MSteps_inv (s := (Heap.empty, Memo.empty)) MemoInv.empty hst
+  refine ⟨hi, fun a t fuel r hs => hashObs_eq hi r hs, ?_, fun σ R b t hc r hb => inplace_repr σ hc r hb⟩
+  intro a b ta tb fuel ra rb hsa hsb hab
+  rw [hashObs_eq hi ra hsa, hashObs_eq hi rb hsb, hashTree_congr ta tb hab]
+
+example : MSteps (Heap.empty, Memo.empty) (inplaceHeap [("a", Ty.bool)] [1, 0] sharedHeap,
+    inplaceMemo true [1, 0] sharedHeap sharedMemo) :=
+  .cons (s2 := (Heap.empty.set 0 ⟨.svar "x" (.stvar "a"), 0⟩, Memo.empty))
+    (.alloc (a := 0) (n := .svar "x" (.stvar "a")) rfl) <|
+  .cons (s2 := (sharedHeap, Memo.empty)) (.alloc (a := 1) (n := .comb 0 0) rfl) <|
+  .cons (s2 := (sharedHeap, sharedMemo))
+    (.hash (a := 1) (t := .comb (.svar "x" (.stvar "a")) (.svar "x" (.stvar "a")))
+      (readTerm_repr 3 1 _ (by decide))) <|
+  .cons (.inplace (σ := [("a", Ty.bool)]) (R := [1, 0]) (childClosed_sound (by decide))
+    sharedMemo_noalias) (.nil _)
+
+/-- The known finding (`NoAlias` violated): `subst_type_inplace` on the object `x` alone, while the
+live term `x x` that contains it has its hash memoised, leaves `x x` with the hash of its OLD
+structure — it is `==` to a freshly built `x x` at the new type, with a different hash. -/
+theorem hash_memo_alias_counterexample :
+    MemoInv sharedHeap sharedMemo ∧ ChildClosed sharedHeap [0] ∧ ¬ NoAlias sharedHeap sharedMemo [0] ∧
+    ¬ MemoInv (inplaceHeap [("a", Ty.bool)] [0] sharedHeap) (inplaceMemo true [0] sharedHeap sharedMemo) := by
+  refine ⟨sharedMemo_inv, childClosed_sound (by decide), ?_, ?_⟩
+  · intro hn
+    exact hn 1 (by decide) (by simp [sharedMemo, Memo.set]) 0
+      (.step (a := 1) (c := 0) (o := ⟨.comb 0 0, 1⟩) rfl (by simp [Node.children]) (.refl 0)) (by simp)
+  · intro hi
+    obtain ⟨t, r, e⟩ := hi 1 _ rfl
+    have ht := r.functional (readTerm_repr 3 1 (.comb (.svar "x" Ty.bool) (.svar "x" Ty.bool)) (by
+      simp [readTerm, inplaceHeap, sharedHeap, Heap.set, substNode, Ty.subst, List.lookup, Ty.bool]))
+    subst ht
+    simp [hashTree, tyHash, tyHashList, Ty.bool] at e
+
+/-- Why the memo must be dropped on EVERY visited object: if it is dropped only where a type
+annotation is rewritten (atoms and abstractions), the application node `x x` keeps the hash of its
+old structure although it is the target itself (`NoAlias` holds). -/
+theorem hash_memo_partial_drop_counterexample :
+    MemoInv sharedHeap sharedMemo ∧ ChildClosed sharedHeap [1, 0] ∧ NoAlias sharedHeap sharedMemo [1, 0] ∧
+    ¬ MemoInv (inplaceHeap [("a", Ty.bool)] [1, 0] sharedHeap) (inplaceMemo false [1, 0] sharedHeap sharedMemo) := by
+  refine ⟨sharedMemo_inv, childClosed_sound (by decide), ?_, ?_⟩
+  · exact sharedMemo_noalias
+  · intro hi
+    obtain ⟨t, r, e⟩ := hi 1 _ rfl
+    have ht := r.functional (readTerm_repr 3 1 (.comb (.svar "x" Ty.bool) (.svar "x" Ty.bool)) (by
+      simp [readTerm, inplaceHeap, sharedHeap, Heap.set, substNode, Ty.subst, List.lookup, Ty.bool]))
+    subst ht
+    simp [hashTree, tyHash, tyHashList, Ty.bool] at e
 
 /-! ### type instantiation -/
 
